@@ -216,6 +216,8 @@ def rand_cfg(rng, profile):
     nenv = 0
     for k in range(n):
         kind = rng.choice(["opt", "multi", "toggle", "toggle"])
+        if profile.get("toggles") and rng.random() < 0.6:
+            kind = "toggle"
         letter = ord(letters[k]) if rng.random() < 0.7 else 0
         env = 0
         if rng.random() < profile.get("env", 0.3):
@@ -322,16 +324,127 @@ def rand_argv(rng, cfg, profile):
     return [b(t) for t in toks]
 
 
+NOWANT = dict(k="none", st=[], pos=[])
+
+
+def is_value_tok(t):
+    n = t.split(b"=", 1)[0]
+    return n == b"" or n[0:1] != b"-"
+
+
+def rand_rendering(rng, cfg):
+    """A random assignment for cfg (no environment) and a random spelling of it -- the Python twin of
+    OptRender.tla.  Returns (argv, expected result).  TLC checks through OptTrace that the vector spells
+    the assignment (Meaning(argv) = want) and that the code parsed it back."""
+    decl = cfg["decl"]
+    items = []      # streams: list of lists (order inside a stream is kept)
+    st = []
+    for i, d in enumerate(decl):
+        if d["kind"] == "opt":
+            if rng.random() < 0.7 or (not d["optional"] and not d["dflt"]):
+                v = rand_value(rng)
+                items.append([("opt", i, v)])
+                st.append(dict(val=[b(v)], list=[], count=0, prov=True))
+            else:
+                st.append(dict(val=[d["dflt"][0]] if d["dflt"] else [], list=[], count=0, prov=False))
+        elif d["kind"] == "multi":
+            k = rng.choice([0, 1, 2, 3]) if (d["optional"] or d["dflt"]) else rng.choice([1, 2, 3])
+            vs = [rand_value(rng) for _ in range(k)]
+            if vs:
+                items.append([("opt", i, v) for v in vs])
+                st.append(dict(val=[], list=[b(v) for v in vs], count=0, prov=True))
+            else:
+                st.append(dict(val=[], list=d["dflt"][0] if d["dflt"] else [], count=0, prov=False))
+        else:
+            k = rng.choice([0, 0, 1, 2, 3])
+            for _ in range(k):
+                items.append([("tog", i, None)])
+            st.append(dict(val=[], list=[], count=k if k else d["dflt"][0], prov=k > 0))
+    npos = 0 if cfg["allowed"] == 0 else rng.randint(0, 3 if cfg["allowed"] < 0 else cfg["allowed"])
+    pos = [rand_value(rng) for _ in range(npos)]
+    posq = list(pos)
+    argv = []
+    dd = False
+    greedy = cfg["greedy"]
+    while items or posq:
+        choices = list(range(len(items)))
+        can_inline = posq and not dd and is_value_tok(posq[0]) and (not greedy or not items)
+        if posq and not items and not dd and (rng.random() < 0.3 or not is_value_tok(posq[0])) and (not greedy or len(posq) == len(pos)):
+            argv.append(b"--")
+            dd = True
+            continue
+        if dd or (can_inline and (not items or rng.random() < 0.3)):
+            if dd or can_inline:
+                argv.append(posq.pop(0))
+                continue
+        if not items:
+            # a positional that cannot be spelled inline and "--" is not possible any more (greedy): spell via "--" first
+            if not dd and (not greedy or len(posq) == len(pos)):
+                argv.append(b"--")
+                dd = True
+                continue
+            return None
+        si = rng.choice(choices)
+        kind, i, v = items[si].pop(0)
+        if not items[si]:
+            items.pop(si)
+        d = decl[i]
+        name = bytes(d["name"])
+        letter = bytes([d["letter"]]) if d["letter"] else None
+        if kind == "opt":
+            forms = ["leq"]
+            if is_value_tok(v):
+                forms.append("lnext")
+            if letter:
+                forms.append("seq")
+                if is_value_tok(v):
+                    forms.append("snext")
+            f = rng.choice(forms)
+            if f == "leq":
+                argv.append(b"--" + name + b"=" + v)
+            elif f == "lnext":
+                argv += [b"--" + name, v]
+            elif f == "seq":
+                argv.append(b"-" + letter + b"=" + v)
+            else:
+                argv += [b"-" + letter, v]
+        else:
+            if letter and rng.random() < 0.6:
+                tok = b"-" + letter
+                # bundle further pending toggle occurrences that have letters
+                k = 0
+                while k < len(items) and rng.random() < 0.5:
+                    if items[k][0][0] == "tog" and decl[items[k][0][1]]["letter"]:
+                        tok += bytes([decl[items[k][0][1]]["letter"]])
+                        items.pop(k)
+                    else:
+                        k += 1
+                argv.append(tok)
+            else:
+                argv.append(b"--" + name)
+    return [b(t) for t in argv], dict(k="some", st=st, pos=[b(p) for p in pos])
+
+
 def record_and_validate(chk, exe, n_parsers, profile, calls_per_parser=(1, 1)):
-    rng = random.Random(chk.seed * 7919 + hash(chk.pid) % 1000)
     rng = random.Random("%s/%s" % (chk.seed, chk.pid))
     dcases = []
     for _ in range(n_parsers):
         cfg, nenv = rand_cfg(rng, profile)
         env = rand_env(rng, nenv)
         k = rng.randint(*calls_per_parser)
-        dcases.append(dict(cfg=cfg, env=env, calls=[rand_argv(rng, cfg, profile) for _ in range(k)]))
-    obs = vc.run_cases(exe, dcases, chk.out, "record", per_case_timeout=10)
+        if profile.get("render"):
+            calls, wants = [], []
+            for _ in range(k):
+                r = rand_rendering(rng, cfg)
+                if r is None:
+                    continue
+                calls.append(r[0])
+                wants.append(r[1])
+            if calls:
+                dcases.append(dict(cfg=cfg, env=env, calls=calls, want=wants))
+        else:
+            dcases.append(dict(cfg=cfg, env=env, calls=[rand_argv(rng, cfg, profile) for _ in range(k)]))
+    obs = vc.run_cases(exe, [dict(cfg=d["cfg"], env=d["env"], calls=d["calls"]) for d in dcases], chk.out, "record", per_case_timeout=10)
     execs = []
     meta = []
     for d, o in zip(dcases, obs):
@@ -345,13 +458,15 @@ def record_and_validate(chk, exe, n_parsers, profile, calls_per_parser=(1, 1)):
                 g = calls[k]
                 oc = "ok" if g["oc"] == "ok" else ("error" if g["oc"] == "parsing_error" else g["oc"])
                 ev = dict(e="Parse", cfg=d["cfg"], env=tenv, argv=av, oc=oc,
-                          st=strip_st(g["st"]) if oc == "ok" else [], pos=g["pos"] if oc == "ok" else [])
+                          st=strip_st(g["st"]) if oc == "ok" else [], pos=g["pos"] if oc == "ok" else [],
+                          want=d.get("want", [NOWANT] * len(d["calls"]))[k])
                 if oc == "ok":
                     e2 = check_get(g["pos"], g["get"]) or check_typed(g["st"]) or (None if g["consistent"] else "accessors disagree")
                     if e2:
                         chk.diverge("Access", "wrong-access", dict(cfg=d["cfg"], env=d["env"], calls=d["calls"][:k + 1]), e2)
             else:
-                ev = dict(e="Parse", cfg=d["cfg"], env=tenv, argv=av, oc=str(o.get("outcome")), st=[], pos=[])
+                ev = dict(e="Parse", cfg=d["cfg"], env=tenv, argv=av, oc=str(o.get("outcome")), st=[], pos=[],
+                          want=d.get("want", [NOWANT] * len(d["calls"]))[k])
                 evs.append(ev)
                 break
             evs.append(ev)
@@ -385,6 +500,12 @@ def record_and_validate(chk, exe, n_parsers, profile, calls_per_parser=(1, 1)):
 PLAN = {
     # pid: (models quick, models thorough, random profile, parsers quick, parsers thorough, calls per parser)
     "C01": (["MC_Opt_C01_quick"], ["MC_Opt_C01_thorough"], dict(env=0.0, long=0.0), 3000, 40000, (1, 1)),
+    "C02": (["MC_Opt_C02_quick"], ["MC_Opt_C02_thorough"], dict(env=0.0, render=True), 3000, 40000, (1, 2)),
+    "C03": (["MC_Opt_C03"], ["MC_Opt_C03"], dict(env=0.9), 3000, 40000, (1, 1)),
+    "C04": (["MC_Opt_C04_quick", "MC_Opt_Live"], ["MC_Opt_C04_thorough", "MC_Opt_C03", "MC_Opt_Live"], dict(env=0.3, long=0.03, batch=400), 3000, 30000, (1, 1)),
+    "C11": (["MC_Opt_C11a_quick", "MC_Opt_C11b"], ["MC_Opt_C11a_thorough", "MC_Opt_C11b"], dict(env=0.6, toggles=True), 3000, 40000, (1, 1)),
+    "C12": (["MC_Opt_C12_quick"], ["MC_Opt_C12_thorough"], dict(env=0.0, positional=True), 3000, 40000, (1, 1)),
+    "C14": (["MC_Opt_C14_quick"], ["MC_Opt_C14_thorough"], dict(env=0.3), 1500, 15000, (2, 6)),
 }
 
 ASSUME = ["the declaration given to the driver is the one the model describes (built through the public declaration API)",
@@ -407,6 +528,13 @@ def run(chk, replay):
         return
     quick, thorough, profile, nq, nt, cpp = PLAN[chk.pid]
     for m in (thorough if chk.thorough() else quick):
+        if m == "MC_Opt_Live":
+            # temporal formula only (every parse call that starts ends): nothing to export
+            r = vc.run_tlc("options/" + m, "options/" + m + ".cfg", timeout=1500)
+            chk.add_tlc(m, r)
+            if not r["ok"]:
+                chk.model_violation(m, r)
+            continue
         replay_model(chk, exe, m, variants=(0, 1) if chk.pid in ("C03", "C11") else (0,))
     chk.exhaustive = True
     record_and_validate(chk, exe, nt if chk.thorough() else nq, profile, cpp)
